@@ -1,6 +1,6 @@
 (* w-TinyLFU (Mem/Algo.v, foyer-memory/src/eviction/lfu.rs): the rules of the three segments, for every state. *)
 From Coq Require Import List NArith Bool Arith Lia Permutation.
-From FV Require Import Base.ListX Mem.Algo.
+From FV Require Import Base.ListX Mem.Shard Mem.Algo.
 Import ListNotations.
 Open Scope N_scope.
 
@@ -70,3 +70,50 @@ Section Lfu.
         assert (wsum w' <= wsum w) by (rewrite Hm2, wsum_app; lia). lia.
   Qed.
 End Lfu.
+
+(* the count-min sketch: counting a hash never lowers anybody's estimate, and raises the counted hash's own estimate
+   by exactly one (below the cap [acc]) *)
+Lemma nth_upd_same (b : nat) (f : N -> N) (r : list N) : (b < length r)%nat -> nth b (upd b f r) 0 = f (nth b r 0).
+Proof. revert b. induction r as [|x r IH]; intros [|b] H; cbn in *; try lia; auto. apply IH. lia. Qed.
+
+Lemma nth_upd_ge (b b' : nat) (r : list N) : nth b' r 0 <= nth b' (upd b (fun n => n + 1) r) 0.
+Proof.
+  revert b b'. induction r as [|x r IH]; intros [|b] [|b']; cbn; try lia; auto.
+Qed.
+
+Lemma sk_estimate_mono_acc rows bs a a' : a <= a' -> sk_estimate rows bs a <= sk_estimate rows bs a'.
+Proof.
+  revert bs a a'. induction rows as [|r rows IH]; intros [|b bs] a a' H; cbn [sk_estimate]; auto.
+  apply IH. lia.
+Qed.
+
+Theorem sk_update_never_lowers rows bs bs' acc :
+  sk_estimate rows bs' acc <= sk_estimate (sk_update rows bs) bs' acc.
+Proof.
+  revert bs bs' acc. induction rows as [|r rows IH]; intros [|b bs] [|b' bs'] acc; cbn [sk_update sk_estimate]; try lia.
+  etransitivity; [apply IH|]. apply sk_estimate_mono_acc.
+  pose proof (nth_upd_ge b b' r). lia.
+Qed.
+
+Lemma sk_estimate_min rows bs a c : sk_estimate rows bs (N.min a c) = N.min (sk_estimate rows bs a) c.
+Proof.
+  revert bs a. induction rows as [|r rows IH]; intros [|b bs] a; cbn [sk_estimate]; auto.
+  rewrite <- IH. f_equal. lia.
+Qed.
+
+Lemma sk_estimate_succ rows bs a :
+  Forall2 (fun r b => (b < length r)%nat) rows bs ->
+  sk_estimate (sk_update rows bs) bs (a + 1) = sk_estimate rows bs a + 1.
+Proof.
+  intros H. revert a. induction H as [|r b rows bs Hb Hr IH]; intros a; cbn [sk_update sk_estimate]; [reflexivity|].
+  rewrite nth_upd_same by assumption. rewrite N.add_min_distr_r. apply IH.
+Qed.
+
+Theorem sk_update_counts_one rows bs cap :
+  Forall2 (fun r b => (b < length r)%nat) rows bs ->
+  sk_estimate (sk_update rows bs) bs cap = N.min cap (sk_estimate rows bs cap + 1).
+Proof.
+  intros H.
+  assert (E : cap = N.min (cap + 1) cap) by lia.
+  rewrite E at 1. rewrite sk_estimate_min. rewrite (sk_estimate_succ _ _ _ H). lia.
+Qed.
